@@ -6,156 +6,8 @@ Require Import QV.C03.Model QV.C03.Spec QV.C03.Proofs QV.C03.Proofs2 QV.C03.Proo
 Import ListNotations.
 Open Scope Z_scope.
 
-Lemma ob_stat_abs : forall o, ob_stat o = astat (ob_abs o).
-Proof. destruct o; reflexivity. Qed.
-
-Lemma map_stat_abs : forall l, map ob_stat l = map astat (map ob_abs l).
-Proof. intros. rewrite map_map. apply map_ext. apply ob_stat_abs. Qed.
-
-Lemma flat_map_abs_ext : forall X (f g : X -> list ob) l,
-  (forall x, In x l -> map ob_abs (f x) = map ob_abs (g x)) ->
-  map ob_abs (flat_map f l) = map ob_abs (flat_map g l).
-Proof.
-  induction l as [|x l IH]; intros H; cbn; auto. rewrite !map_app, (H x (or_introl eq_refl)). f_equal.
-  apply IH. intros; apply H; right; auto.
-Qed.
-
-(* ---- strengthened coincidence: the obligations (what is asked, and its value) depend only on declared names ---- *)
-Lemma obs_c_agree_a : forall cs r1 r2, agree (cvars_l cs) r1 r2 ->
-  map ob_abs (obs_c r1 cs) = map ob_abs (obs_c r2 cs).
-Proof.
-  induction cs as [|c cs IH]; intros r1 r2 H; cbn; auto.
-  unfold cvars_l in H; cbn in H. apply agree_app in H as [H1 H2].
-  rewrite (ceval_agree c _ _ H1). f_equal. apply IH; auto.
-Qed.
-
-Lemma obs_r_agree_a : forall es r1 r2, agree (vars_l es) r1 r2 ->
-  map ob_abs (obs_r r1 es) = map ob_abs (obs_r r2 es).
-Proof.
-  induction es as [|e es IH]; intros r1 r2 H; cbn; auto.
-  unfold vars_l in H; cbn in H. apply agree_app in H as [H1 H2].
-  rewrite (eval_agree e _ _ H1). f_equal. apply IH; auto.
-Qed.
-
-Lemma obs_m_agree_a : forall ms r1 r2, agree (mvars_l ms) r1 r2 ->
-  map ob_abs (obs_m r1 ms) = map ob_abs (obs_m r2 ms).
-Proof.
-  induction ms as [|[b l] ms IH]; intros r1 r2 H; cbn; auto.
-  unfold mvars_l in H; cbn in H. apply agree_app in H as [H1 H2]. apply agree_app in H1 as [Hb Hl].
-  rewrite (eval_agree b _ _ Hb), (eval_agree l _ _ Hl). do 2 f_equal. apply IH; auto.
-Qed.
-
-Definition atomic_coincide_a (p : pt) : Prop :=
-  wf p -> forall r1 r2 drop, agree (pnames p) r1 r2 ->
-    map ob_abs (obs_build p r1 drop) = map ob_abs (obs_build p r2 drop)
-    /\ wave p r1 drop = wave p r2 drop
-    /\ map ob_abs (obs_meas p r1) = map ob_abs (obs_meas p r2).
-
-Lemma atomic_coincidence_a : forall p, atomic_coincide_a p.
-Proof.
-  induction p using pt_ind'; unfold atomic_coincide_a; intros Hwf r1 r2 drop Hag; cbn [pnames] in Hag.
-  - (* Atom *)
-    apply agree_app in Hag as [Hr Hag]. apply agree_app in Hag as [Hd Hag]. apply agree_app in Hag as [Hm Hc].
-    cbn [obs_build wave obs_meas]. split; [|split].
-    + rewrite !map_app. rewrite (obs_c_agree_a cs _ _ Hc). f_equal.
-      destruct k.
-      * rewrite !map_app. rewrite (obs_r_agree_a reads _ _ Hr). cbn. rewrite (eval_agree dur _ _ Hd); auto.
-      * destruct drop; auto. cbn. rewrite (eval_agree dur _ _ Hd). f_equal.
-        rewrite (nonzero_agree dur _ _ Hd). destruct (nonzero r2 dur); auto. apply obs_r_agree_a; auto.
-      * destruct drop; auto. cbn. rewrite (eval_agree dur _ _ Hd). f_equal. apply obs_r_agree_a; auto.
-    + unfold atom_wave. rewrite (nonzero_agree dur _ _ Hd); auto.
-    + apply obs_m_agree_a; auto.
-  - (* AMC *)
-    apply agree_app in Hag as [Hm Hag]. apply agree_app in Hag as [Hc Hs].
-    cbn [wf] in Hwf. destruct Hwf as [_ Hwf]. apply wf_subs in Hwf.
-    assert (Hall : forall q, In q subs ->
-              map ob_abs (obs_build q r1 drop) = map ob_abs (obs_build q r2 drop)
-              /\ wave q r1 drop = wave q r2 drop
-              /\ map ob_abs (obs_meas q r1) = map ob_abs (obs_meas q r2)).
-    { intros q Hq. rewrite Forall_forall in H, Hwf. apply (H q Hq (Hwf q Hq)).
-      eapply agree_sub; [|exact Hs]. apply flat_map_in_sub; auto. }
-    clear H Hwf Hs. cbn [obs_build wave obs_meas]. split; [|split].
-    + rewrite !map_app. rewrite (obs_c_agree_a cs _ _ Hc). f_equal.
-      induction subs as [|q subs IH]; cbn; auto. rewrite !map_app.
-      rewrite (proj1 (Hall q (or_introl eq_refl))). f_equal. apply IH. intros; apply Hall; right; auto.
-    + induction subs as [|q subs IH]; cbn; auto.
-      rewrite (proj1 (proj2 (Hall q (or_introl eq_refl)))). f_equal. apply IH. intros; apply Hall; right; auto.
-    + rewrite !map_app. rewrite (obs_m_agree_a ms _ _ Hm). f_equal.
-      induction subs as [|q subs IH]; cbn; auto. rewrite !map_app.
-      rewrite (proj2 (proj2 (Hall q (or_introl eq_refl)))). f_equal. apply IH. intros; apply Hall; right; auto.
-  - (* Par *)
-    apply agree_app in Hag as [Hi Ho]. cbn [wf] in Hwf.
-    destruct (IHp Hwf r1 r2 drop Hi) as [H1 [H2 H3]].
-    cbn [obs_build wave obs_meas]. split; [|split]; auto.
-    rewrite !map_app, H1, H2. f_equal. destruct (wave p r2 drop); auto. apply obs_r_agree_a; auto.
-  - cbn; auto.
-  - cbn; auto.
-  - cbn; auto.
-  - (* Map *)
-    apply agree_app in Hag as [Hm Hc]. cbn [wf] in Hwf. destruct Hwf as [Hsub Hwf].
-    assert (Hag' : agree (pnames p) (map_env r1 m) (map_env r2 m)).
-    { apply map_env_agree; auto. apply subset_in; auto. }
-    destruct (IHp Hwf _ _ drop Hag') as [H1 [H2 H3]].
-    cbn [obs_build wave obs_meas]. split; [|split]; auto.
-    rewrite !map_app, H1. f_equal. apply obs_c_agree_a; auto.
-Qed.
-
-Definition coincide_a (p : pt) : Prop :=
-  wf p -> forall r1 r2 drop, agree (pnames p) r1 r2 ->
-    map ob_abs (obs p r1 drop) = map ob_abs (obs p r2 drop) /\ plays p r1 drop = plays p r2 drop.
-
-Lemma coincidence_a : forall p, coincide_a p.
-Proof.
-  induction p using pt_ind'; unfold coincide_a; intros Hwf r1 r2 drop Hag.
-  - destruct (atomic_coincidence_a _ Hwf r1 r2 drop Hag) as [H1 [H2 H3]].
-    cbn [obs plays]. split; auto. rewrite !map_app, H1, H2. f_equal. destruct (wave _ r2 drop); auto.
-  - destruct (atomic_coincidence_a _ Hwf r1 r2 drop Hag) as [H1 [H2 H3]].
-    cbn [obs plays]. split; auto. rewrite !map_app, H1, H2. f_equal. destruct (wave _ r2 drop); auto.
-  - cbn [pnames] in Hag. apply agree_app in Hag as [Hi Ho]. cbn [wf] in Hwf.
-    destruct (IHp Hwf r1 r2 drop Hi) as [H1 H2]. cbn [obs plays]. split; auto.
-    rewrite !map_app, H1. f_equal. destruct drop; auto. apply obs_r_agree_a; auto.
-  - cbn [pnames] in Hag. apply agree_app in Hag as [Hc Hag]. apply agree_app in Hag as [Hm Hs].
-    cbn [wf] in Hwf. apply wf_subs in Hwf. rewrite Forall_forall in H, Hwf.
-    assert (Hq : forall q, In q subs -> map ob_abs (obs q r1 drop) = map ob_abs (obs q r2 drop)
-                                       /\ plays q r1 drop = plays q r2 drop).
-    { intros q Hq. apply H; auto. eapply agree_sub; [|exact Hs]. apply flat_map_in_sub; auto. }
-    cbn [obs plays]. split.
-    + rewrite !map_app, (obs_c_agree_a cs _ _ Hc), (obs_m_agree_a ms _ _ Hm). do 2 f_equal.
-      apply flat_map_abs_ext. intros q Hin. apply Hq; auto.
-    + apply existsb_ext_in. intros q Hin. apply Hq; auto.
-  - cbn [pnames] in Hag. apply agree_app in Hag as [Hb Hag]. apply agree_app in Hag as [Hc Hag].
-    apply agree_app in Hag as [Hm Hn]. cbn [wf] in Hwf.
-    destruct (IHp Hwf r1 r2 drop Hb) as [H1 H2]. cbn [obs plays].
-    rewrite (int_of_agree count _ _ Hn). split.
-    + rewrite !map_app, (obs_c_agree_a cs _ _ Hc). f_equal. cbn [map ob_abs]. rewrite (eval_agree count _ _ Hn).
-      f_equal. destruct (int_of r2 count); auto. destruct (0 <? z); auto.
-      rewrite !map_app, (obs_m_agree_a ms _ _ Hm), H1; auto.
-    + destruct (int_of r2 count); auto. destruct (0 <? z); auto.
-  - cbn [pnames] in Hag. apply agree_app in Hag as [Hb Hag]. apply agree_app in Hag as [Hr Hag].
-    apply agree_app in Hag as [Hc Hm]. apply agree_app in Hr as [Ha Hr]. apply agree_app in Hr as [Hb' Hst].
-    cbn [wf] in Hwf.
-    assert (Hv : forall v, map ob_abs (obs p (upd r1 i (inject_Z v)) drop)
-                           = map ob_abs (obs p (upd r2 i (inject_Z v)) drop)
-                           /\ plays p (upd r1 i (inject_Z v)) drop = plays p (upd r2 i (inject_Z v)) drop).
-    { intros v. apply IHp; auto. intros x Hx. unfold upd. destruct (N.eqb_spec x i); auto.
-      apply Hb. apply remove_id_in; auto. }
-    assert (Hrg : range_of r1 a b st = range_of r2 a b st).
-    { unfold range_of. rewrite (int_of_agree a _ _ Ha), (int_of_agree b _ _ Hb'), (int_of_agree st _ _ Hst); auto. }
-    cbn [obs plays]. rewrite Hrg. split.
-    + rewrite !map_app, (obs_c_agree_a cs _ _ Hc). f_equal. cbn [map ob_abs].
-      rewrite (eval_agree a _ _ Ha), (eval_agree b _ _ Hb'), (eval_agree st _ _ Hst). do 3 f_equal.
-      destruct (range_of r2 a b st); auto.
-      rewrite !map_app, (obs_m_agree_a ms _ _ Hm). f_equal. apply flat_map_abs_ext. intros v _. apply Hv.
-    + destruct (range_of r2 a b st); auto. apply existsb_ext_in. intros v _. apply Hv.
-  - cbn [pnames] in Hag. apply agree_app in Hag as [Hm Hc]. cbn [wf] in Hwf. destruct Hwf as [Hsub Hwf].
-    rewrite subset_in in Hsub.
-    destruct (IHp Hwf (map_env r1 m) (map_env r2 m) drop (map_env_agree _ _ _ _ Hm Hsub)) as [H1 H2].
-    cbn [obs plays]. split; auto. rewrite !map_app, (obs_c_agree_a cs _ _ Hc), H1; auto.
-Qed.
-
-
 (* ---- the five components of the specification of a node ---- *)
-Definition five (p : pt) (rho : env) (drop : bool) :=
+Definition five (p : pt) (rho : env) (drop : list ident) :=
   (map ob_abs (obs p rho drop), plays p rho drop,
    map ob_abs (obs_build p rho drop), wave p rho drop, map ob_abs (obs_meas p rho)).
 
@@ -257,6 +109,8 @@ Proof.
     destruct (existsb (fun q => wave q rho drop) subs); rewrite ?map_app, ?Hm; reflexivity.
   - specialize (IHu Hu). destruct (five_inv _ _ _ _ _ _ (IHu rho drop)) as [H1 [H2 [H3 [H4 H5]]]].
     unfold five. cbn [construct obs plays obs_build wave obs_meas]. rewrite !map_app, H1, H2, H3, H4. reflexivity.
+  - specialize (IHu Hu). destruct (five_inv _ _ _ _ _ _ (IHu rho drop)) as [H1 [H2 [H3 [H4 H5]]]].
+    unfold five. cbn [construct obs plays obs_build wave obs_meas]. rewrite !map_app, H1, H2, H3, H4, H5. reflexivity.
   - apply uok_subs in Hu. rewrite Forall_forall in H, Hu.
     assert (Hq : forall q, In q subs -> forall r d, five (construct q) r d = five q r d) by (intros; apply H; auto).
     unfold five. cbn [construct obs plays obs_build wave obs_meas]. rewrite !map_app. do 4 f_equal.
@@ -321,6 +175,17 @@ Proof.
   rewrite !(existsb_stat (fun s => match s with FOther => true | _ => false end)), construct_stat; auto.
 Qed.
 
+Definition gA (a : ob_a) : bool := match a with AF _ v c => negb (c && negb (is_some v)) | _ => true end.
+Lemma guard_abs : forall l,
+  forallb (fun o => match o with OF e r => negb (vanishes r e) | _ => true end) l = forallb gA (map ob_abs l).
+Proof. induction l as [|o l IH]; cbn; auto. rewrite IH. destruct o; reflexivity. Qed.
+Lemma construct_guard : forall u rho drop, uok u ->
+  guard_C03_function_zero (construct u) rho drop = guard_C03_function_zero u rho drop.
+Proof.
+  intros u rho drop Hu. unfold guard_C03_function_zero. rewrite !guard_abs.
+  rewrite (proj1 (construct_obs u Hu rho drop)). reflexivity.
+Qed.
+
 (* the visible constraints: same constraints in the same order with the same truth values *)
 Definition vis_rel (a b : constr * env) : Prop := fst a = fst b /\ ceval (snd a) (fst a) = ceval (snd b) (fst b).
 
@@ -351,10 +216,18 @@ Qed.
 
 (* ---- the top-level results with the specification applied to the user-level tree ---- *)
 Lemma user_refines : forall u values drop, uok u ->
+  guard_C03_function_zero u (lookup (SDict values)) drop = true ->
   refines (create_program u values drop) (verdict u (lookup (SDict values)) drop).
 Proof.
+  intros u values drop Hu Hg. rewrite <- (construct_verdict u _ drop Hu). unfold create_program.
+  apply run_ref; [apply construct_wf; auto|]. rewrite construct_guard; auto.
+Qed.
+
+Lemma user_refines_u : forall u values drop, uok u ->
+  refines_u (create_program u values drop) (verdict u (lookup (SDict values)) drop).
+Proof.
   intros u values drop Hu. rewrite <- (construct_verdict u _ drop Hu). unfold create_program.
-  apply run_ref. apply construct_wf; auto.
+  apply run_ref_u. apply construct_wf; auto.
 Qed.
 
 Lemma user_iff : forall u values drop b, uok u ->
@@ -376,43 +249,62 @@ Proof.
   - rewrite construct_some_other; auto.
 Qed.
 
-Lemma user_sound : forall u values drop b, uok u -> create_program u values drop = Ok b ->
+Lemma user_sound : forall u values drop b, uok u ->
+  guard_C03_function_zero u (lookup (SDict values)) drop = true -> create_program u values drop = Ok b ->
   (forall c r, In (c, r) (visible u (lookup (SDict values)) drop) -> ceval r c = Some true)
   /\ none_missing u (lookup (SDict values)) drop = true /\ b = plays u (lookup (SDict values)) drop.
 Proof.
-  intros u values drop b Hu Hr. unfold create_program in Hr.
-  destruct (accepted_sound _ _ _ _ (construct_wf u Hu) Hr) as [H1 H2].
+  intros u values drop b Hu Hg Hr. unfold create_program in Hr.
+  rewrite <- (construct_guard u _ drop Hu) in Hg.
+  destruct (accepted_sound _ _ _ _ (construct_wf u Hu) Hg Hr) as [H1 H2].
   rewrite (construct_all_hold u _ drop Hu) in H1. rewrite (proj2 (construct_obs u Hu _ drop)) in H2.
   split; [apply all_hold_visible; auto|split; [apply all_hold_none_missing; auto|auto]].
 Qed.
 
-Lemma user_violation_justified : forall u values drop, uok u -> create_program u values drop = Err Violated ->
+Lemma user_violation_justified : forall u values drop, uok u ->
+  guard_C03_function_zero u (lookup (SDict values)) drop = true -> create_program u values drop = Err Violated ->
   exists c r, In (c, r) (visible u (lookup (SDict values)) drop) /\ ceval r c = Some false.
 Proof.
-  intros u values drop Hu Hr. unfold create_program in Hr.
-  destruct (violated_sound _ _ _ (construct_wf u Hu) Hr) as [c [r [Hin Hc]]].
+  intros u values drop Hu Hg Hr. unfold create_program in Hr.
+  rewrite <- (construct_guard u _ drop Hu) in Hg.
+  destruct (violated_sound _ _ _ (construct_wf u Hu) Hg Hr) as [c [r [Hin Hc]]].
   destruct (Forall2_in_l _ _ _ _ _ _ (construct_visible u (lookup (SDict values)) drop Hu) Hin) as [[c' r'] [Hin' [E1 E2]]].
   cbn in E1, E2. subst c'. exists c, r'. split; auto. congruence.
 Qed.
 
-Lemma user_missing : forall u values drop b, uok u -> none_missing u (lookup (SDict values)) drop = false ->
+Lemma user_missing : forall u values drop b, uok u ->
+  guard_C03_function_zero u (lookup (SDict values)) drop = true ->
+  none_missing u (lookup (SDict values)) drop = false ->
   create_program u values drop <> Ok b.
 Proof.
-  intros u values drop b Hu Hm. unfold create_program. apply missing_never_ok; [apply construct_wf; auto|].
-  rewrite construct_none_missing; auto.
+  intros u values drop b Hu Hg Hm. unfold create_program. apply missing_never_ok; [apply construct_wf; auto| |].
+  - rewrite construct_guard; auto.
+  - rewrite construct_none_missing; auto.
 Qed.
+
+(* the known finding: without the guard clause (d) fails -- FunctionPT('(p0*p5)*t') with p0 = 0 and p5 missing *)
+Definition ex_fzero : pt := Atom KFunction [7%N] [EMul (EVar 0%N) (EVar 5%N)] (EConst 2) [] [].
+Lemma missing_refuted : exists u values drop b, uok u /\ none_missing u (lookup (SDict values)) drop = false /\
+  create_program u values drop = Ok b.
+Proof. exists ex_fzero, [(0%N, 0%Q)], [], true. split; [exact Logic.I|]. split; vm_compute; reflexivity. Qed.
+(* ... and the guard excludes exactly this; it holds e.g. when the factor is not 0 (the code then raises ValueError) *)
+Example ex_fzero_guard_false : guard_C03_function_zero ex_fzero (lookup (SDict [(0%N, 0%Q)])) [] = false.
+Proof. vm_compute. reflexivity. Qed.
+Example ex_fzero_guard_true : guard_C03_function_zero ex_fzero (lookup (SDict [(0%N, 1%Q)])) [] = true
+  /\ create_program ex_fzero [(0%N, 1%Q)] [] = Err Other.
+Proof. split; vm_compute; reflexivity. Qed.
 
 (* non-vacuity: a tree in which a nested mapping is merged and a partial mapping is completed *)
 Definition ex_nested : pt :=
-  Map (Map (Atom KTable [EVar 1%N; EVar 2%N] (EConst 2) [Constr OLt (EVar 1%N) (EVar 2%N)] [])
+  Map (Map (Atom KTable [7%N] [EVar 1%N; EVar 2%N] (EConst 2) [Constr OLt (EVar 1%N) (EVar 2%N)] [])
            [(1%N, EAdd (EVar 3%N) (EConst 1))] [])
       [(3%N, EMul (EVar 4%N) (EConst 2))] [Constr OGe (EVar 4%N) (EConst 0)].
 Example ex_nested_merged :
   construct ex_nested =
-  Map (Atom KTable [EVar 1%N; EVar 2%N] (EConst 2) [Constr OLt (EVar 1%N) (EVar 2%N)] [])
+  Map (Atom KTable [7%N] [EVar 1%N; EVar 2%N] (EConst 2) [Constr OLt (EVar 1%N) (EVar 2%N)] [])
       [(1%N, EAdd (EMul (EVar 4%N) (EConst 2)) (EConst 1)); (2%N, EVar 2%N)] [Constr OGe (EVar 4%N) (EConst 0)].
 Proof. reflexivity. Qed.
-Example ex_nested_runs : create_program ex_nested [(4%N, 1%Q); (2%N, 5%Q)] false = Ok true.
+Example ex_nested_runs : create_program ex_nested [(4%N, 1%Q); (2%N, 5%Q)] [] = Ok true.
 Proof. vm_compute. reflexivity. Qed.
 
 Print Assumptions construct_obs.
